@@ -137,6 +137,7 @@ func plans() []plan {
 	add("outercancel", 1000, 60000)
 	add("stress", 160, 8000)
 	add("outer-bigtree", 36, 400)
+	add("outer-after-early-grant", 120, 4000)
 	return ps
 }
 
@@ -144,7 +145,7 @@ func TestCheck(t *testing.T) {
 	rec = mon.Open("C13")
 	defer rec.Close()
 	rec.Note("rule", "a case is one history of 2-8 goroutines x 1-3 keys driven in lock-step against one lock primitive (fifo.Mutex, fifo.Map, cmap.Mutex, lock.Context, lock.OuterCancel), with seeded parking of a caller at the verif hook points between the map look-up and the mutex operation; cmap additionally runs the two directed delete-and-release histories. An occupancy monitor shadows every critical section; FIFO grants are compared with arrival order; fifo.Map's entry count is read at idle points; cancellation and OuterCancel rules are judged from the recorded grants, cancellations and causes in virtual time. Non-trivial = at least one acquisition had to wait; distinct = distinct step list.")
-	rec.Note("require", []string{"fifo.order_checked", "fifomap.idle_len_checked", "fifomap.park.map.lock.counted", "fifomap.park.map.unlock.counted", "cmap.park.lock.lookedup", "cmap.park.rlock.lookedup", "cmap.delete_unlock_safe", "cmap.directed.waiter_confirmed", "context.cancelled_while_waiting", "context.error_holds_nothing", "outer.writer_cancelled_readers_at_grace", "outer.reader_released_before_grace", "outer.reader_blocked_by_writer", "outer.rlock_error_holds_nothing_checked", "outer.free_lock_granted_at_once", "outer.grace_kept_for_holder_whose_parent_ended", "keys.zero_value_key_used", "outer.release_after_shutdown_returned", "outer.writers_exclusive_after_shutdown", "waits", "stress.acquisitions", "outer.bigtree.writer_granted_with_every_derived_context_cancelled"})
+	rec.Note("require", []string{"fifo.order_checked", "fifomap.idle_len_checked", "fifomap.park.map.lock.counted", "fifomap.park.map.unlock.counted", "cmap.park.lock.lookedup", "cmap.park.rlock.lookedup", "cmap.delete_unlock_safe", "cmap.directed.waiter_confirmed", "context.cancelled_while_waiting", "context.error_holds_nothing", "outer.writer_cancelled_readers_at_grace", "outer.reader_released_before_grace", "outer.reader_blocked_by_writer", "outer.rlock_error_holds_nothing_checked", "outer.free_lock_granted_at_once", "outer.grace_kept_for_holder_whose_parent_ended", "keys.zero_value_key_used", "outer.release_after_shutdown_returned", "outer.writers_exclusive_after_shutdown", "waits", "stress.acquisitions", "outer.bigtree.writer_granted_with_every_derived_context_cancelled", "outer.reader_after_early_grant_kept_until_next_writers_grace"})
 	ps := plans()
 	rec.Planned(len(ps))
 	for idx, pl := range ps {
@@ -178,6 +179,8 @@ func TestCheck(t *testing.T) {
 			res = mon.Bubble(t, func() { nontrivial = stress(w, rng) })
 		case "outer-bigtree":
 			res = mon.Bubble(t, func() { nontrivial = outerBigTree(w, rng) })
+		case "outer-after-early-grant":
+			res = mon.Bubble(t, func() { nontrivial = outerAfterEarlyGrant(w, rng) })
 		}
 		if w.viol {
 			res.Deadlock = "" // goroutines left behind are the consequence of the reported violation
@@ -1270,11 +1273,22 @@ func outerCancel(w *world, rng *mon.RNG) bool {
 				if r.released && r.mode == "prompt" {
 					continue
 				}
-				ok := false
+				ok, stale := false, false
 				for _, wr := range writers {
 					if !wr.arrived.After(r.doneAt.Add(-grace)) {
-						ok = true
+						// ... and that writer was still waiting for the lock when the reader was told to stop: a
+						// writer that had been granted before is no reason (its wait was over)
+						if wr.grantSeq == 0 || !wr.granted.Before(r.doneAt) {
+							ok = true
+						} else {
+							stale = true
+						}
 					}
+				}
+				if !ok && stale {
+					mu.Unlock()
+					w.violation("OuterCancel/reader-cancelled-without-a-waiting-writer", fmt.Sprintf("reader%d (granted %s) was cancelled at %s with the lock's cause, but every writer that had arrived a grace period (%v) earlier had already been granted before that instant: nobody was waiting for the lock", r.id, r.granted.Format("05.000"), r.doneAt.Format("05.000"), grace))
+					return true
 				}
 				if !ok {
 					mu.Unlock()
